@@ -20,6 +20,11 @@ from mc.models import protocol
 MOD = "mc.props.c20"
 ALLOWED = [[32, 33, False], [97, 122, False]]
 ALLOWED_WIDE = [[32, 126, False]]
+ALLOWED_NO_BLANK = [[33, 33, True], [97, 122, False]]
+
+
+def allowed_items(config):
+    return {"wide": ALLOWED_WIDE, "noblank": ALLOWED_NO_BLANK}.get(config.get("allowed"), ALLOWED)
 CELLS = ["ab", "", "a!", "abcd", "A", " ", "b"]
 
 
@@ -32,14 +37,14 @@ def decls_for(config):
         elif size:
             decl["length"] = [[1, size, False]]
         if config.get("allowed"):
-            decl["allowed"] = ALLOWED_WIDE if config["allowed"] == "wide" else ALLOWED
+            decl["allowed"] = allowed_items(config)
         decls.append(harness.complete(decl))
     return decls
 
 
 def make_cid(config, decls, type_name="VerifRec", check_type="VerifProto"):
     rows = harness.cid_rows(config["preset"], decls, [["k%d" % i, check_type, rule] for i, rule in enumerate(config["checks"])], config["header"],
-                            allowed=(ALLOWED_WIDE if config["allowed"] == "wide" else ALLOWED) if config.get("allowed") else None, line_delimiter="lf")
+                            allowed=allowed_items(config) if config.get("allowed") else None, line_delimiter="lf")
     for row in rows:
         if row[0] == "F":
             row[5] = type_name
@@ -60,11 +65,15 @@ def execute(cid, config, decls, run):
     kind = run["kind"]
     if kind == "writer":
         writer = cutplace.Writer(cid, io.StringIO(newline=""))
+        from mc import recording
+
         for row in run["table"]:
             try:
                 writer.write_row(list(row))
             except errors.CutplaceError:
                 pass
+            except Exception as error:  # anything else is no part of the protocol: make it visible in the log
+                recording.LOG.append(["writer", "raised", type(error).__name__])
         for _ in range(2):
             try:
                 writer.close()
@@ -172,7 +181,11 @@ def judge(case, part):
 
 
 def row_pool(config, decls):
-    pool = [list(t) for t in itertools.product(CELLS, repeat=len(decls))]
+    cells = CELLS
+    if config.get("allowed") == "noblank":
+        # fixed cells that are blank-only while blanks are not allowed are not settled by the statement: leave them out
+        cells = [c for c in CELLS if c.strip(" ") != ""]
+    pool = [list(t) for t in itertools.product(cells, repeat=len(decls))]
     if config["preset"] != "fixed":
         pool.append(["ab"] * (len(decls) + 1))
         if len(decls) > 1:
@@ -199,7 +212,7 @@ def configs(tier):
         for header in (0, 1, 2):
             for fields in ([(False, 3)], [(True, 4), (False, 2)], [(False, 2), (True, 3), (False, 3)]):
                 for checks in ([], ["ok"], ["veto:ab", "ok"], ["ok", "end", "ok"], ["end", "veto:b"]):
-                    for allowed in (False, True):
+                    for allowed in (False, True) + (("noblank",) if preset == "fixed" and len(fields) < 3 else ()):
                         if tier == "quick" and (header == 2 or len(fields) == 3) and (allowed or len(checks) == 1):
                             continue
                         result.append({"preset": preset, "header": header, "fields": fields, "checks": checks, "allowed": allowed})
@@ -233,6 +246,13 @@ def explore(item):
         for length in range(0, enumerate_depth + 1):
             for indexes in itertools.product(range(len(pool)), repeat=length):
                 judge({"config": config, "runs": [dict(variant, table=header_rows + [pool[i] for i in indexes])]}, part)
+    # writer only: values that are too long only because of surrounding blanks (a reader never sees such cells)
+    if config["preset"] == "fixed":
+        writer = {"kind": "writer"}
+        padded = [[(" " + c + "  ") if index == column else c for index, c in enumerate(pool[0])] for column in range(len(decls))]
+        padded += [[c + " " * 4 for c in pool[0]]]
+        for rows in ([r] for r in padded):
+            judge({"config": config, "runs": [dict(writer, table=header_rows + rows + [pool[0]])]}, part)
     # two runs on one CID
     short_tables = [header_rows + [pool[i] for i in indexes] for length in (0, 1) for indexes in itertools.product(range(min(len(pool), 4)), repeat=length)]
     seconds = [v for v in run_variants("quick") if v.get("limit") in (None,) ]
